@@ -356,6 +356,19 @@ pub fn gen_spec_at(rng: &mut Rng, rich: bool, first_page: Option<u64>) -> ElfSpe
             let name = match rng.below(8) {
                 0 => None,
                 1 => Some(Err(0x00ff_ff00 + i as u32)),
+                // long names, ASCII and multi-byte UTF-8 (mangled C++/Rust names run to hundreds of bytes)
+                2 => {
+                    let unit = *rng.pick(&["é", "→", "𝄞", "x", "ß_"]);
+                    let mut n = format!("long_{}_", i);
+                    let want = rng.range(100, 400) as usize + (rng.below(4) as usize);
+                    if rng.below(2) == 0 {
+                        n.push_str(&"a".repeat(rng.below(4) as usize));
+                    }
+                    while n.len() < want {
+                        n.push_str(unit);
+                    }
+                    Some(Ok(n))
+                }
                 _ => Some(Ok(format!("sym_{}_{:x}", i, rng.below(0x1000)))),
             };
             v.push(Sym { name, value, defined: rng.below(6) != 0 });
